@@ -320,6 +320,8 @@ func (h *robustHarness) Run(t *testing.T, ci any) *Outcome {
 		return mk("no-progress", "step cap reached after %d steps: %s", er.res.Steps, joinLines(er.res.Stuck, 8))
 	case !er.done || er.res.Deadlock:
 		return mk("hang", "the call did not return: no runnable task left\n%s\n%s", joinLines(er.res.Stuck, 8), er.res.LeakDump)
+	case er.inflightAtReturn > 0:
+		return mk("driver-call-outlives-statement", "the call returned while %d storage driver call(s) it had started were still in flight", er.inflightAtReturn)
 	case er.res.Leaked > 0:
 		return mk("goroutine-left:"+leakSite(er.res.LeakDump), "%d goroutine(s) started for the call are still there after it returned:\n%s", er.res.Leaked, er.res.LeakDump)
 	case er.bubble != "":
